@@ -54,9 +54,15 @@ pub fn expand_type_support(input: &DeriveInput) -> Result<TokenStream> {
             let mut member_dynamic_sample_seq = Vec::new();
 
             let mut next_auto_id = 0;
+            let mut serialized_member_count = 0u32;
             for (member_index, member) in xtypes_struct.fields.iter().enumerate() {
-                let index = member_index as u32;
                 let struct_member_attributes = get_structure_member_attributes(member)?;
+                // A non-serialized member never appears in the dynamic data, so it must not be part of
+                // the published type either (the serializer walks the member list)
+                let index = serialized_member_count;
+                if !struct_member_attributes.non_serialized {
+                    serialized_member_count += 1;
+                }
 
                 let member_name = member
                     .ident
@@ -165,6 +171,7 @@ pub fn expand_type_support(input: &DeriveInput) -> Result<TokenStream> {
                     quote! { <#member_type as dust_dds::xtypes::type_support::Type>::TYPE}
                 };
 
+                if !struct_member_attributes.non_serialized {
                 member_list.push(quote! {
                      dust_dds::xtypes::dynamic_type::DynamicTypeMember {
                         descriptor: dust_dds::xtypes::dynamic_type::MemberDescriptor {
@@ -184,6 +191,7 @@ pub fn expand_type_support(input: &DeriveInput) -> Result<TokenStream> {
                         }
                     }
                 });
+                }
 
                 let member_type = &member.ty;
                 let member_default_value = default_value
